@@ -5,6 +5,6 @@
 EXTENDS FidTable, Json
 Emit == PrintT(ToJson(<<View, last', View'>>))
 \* sampled emission for large instances: every state-changing transition, one in Sample of the others
-CONSTANT Sample
-EmitSampled == (View' = View /\ RandomElement(1..Sample) # 1) \/ Emit
+CONSTANTS Sample, SampleChange
+EmitSampled == (View' = View /\ RandomElement(1..Sample) # 1) \/ (View' # View /\ RandomElement(1..SampleChange) # 1) \/ Emit
 =============================================================================
